@@ -67,7 +67,7 @@ DECIDING = {
     # client behind an explicit HTTP proxy: proxy silent or half-answering (STATE_PROXY_CONNECTING) / answered, server silent
     # auto-ping cadence judged on time lines where the application was inside a streamed frame around the tick; server-drop
     # deadline judged although the server kept sending close frames after the closing handshake
-    "ping_intervals_measured_streaming": 100, "pings_written_mid_frame": 20, "streamed_frames_begun": 100,
+    "ping_intervals_measured_streaming": 100, "pings_written_at_frame_completion": 20, "streamed_frames_begun": 100,
     "deadline_evaluated_drop_after_repeated_close": 50, "close_frames_after_peer_close": 100,
     # timer-initiated drops judged while the write buffer cannot be flushed (only an abortive close ends the connection)
     "timer_drops_unflushable_buffer": 100, "unflushable_timer_kinds": 7,
